@@ -41,14 +41,52 @@ def Fs(xs):
     return [F(x) for x in xs]
 
 
+NAMES = ["zeta", "alpha", "mid", "Beta", "k9", "_u", "omega", "a1", "Zz", "b"]
+
+
+def nums(xs, st=None):
+    """numbers handed to the implementation: floats, or - in the integer-typed stream, when every
+    value is integral - Python ints / an int64 array"""
+    fr = [F(x) for x in xs]
+    if st is not None and st.get("ints") and all(f.denominator == 1 for f in fr):
+        vals = [int(f) for f in fr]
+        return np.array(vals, dtype=np.int64) if st.get("ctype") == "array" else vals
+    return [float(f) for f in fr]
+
+
+def typed(x, t):
+    """a selection bound of the requested Python / numpy type (float when the type cannot hold it)"""
+    f = F(x)
+    if t == "int" and f.denominator == 1:
+        return int(f)
+    if t == "npint" and f.denominator == 1:
+        return np.int64(int(f))
+    if t == "np32" and F(float(np.float32(float(f)))) == f:
+        return np.float32(float(f))
+    if t == "np64":
+        return np.float64(float(f))
+    return float(f)
+
+
+XTYPES = ["float", "float", "np64", "np32", "int", "npint"]
+
+
 # ------------------------------------------------------------------ generators
-def gen_state(rng, exact, nd=None, nsubs=None, scale=None, nmax=6):
+def gen_state(rng, exact, nd=None, nsubs=None, scale=None, nmax=6, ints=False):
     nd = nd or rng.choice([1, 1, 2, 2, 3, 3, 3, 4])
     s = 1.0 if exact else (scale or rng.choice(SCALES))
+    ints = bool(ints and exact)
     lo, hi, n = [], [], []
     for _ in range(nd):
         k = rng.randint(1, nmax)
-        if exact:
+        if ints:
+            # integer-typed corners, possibly fractional cells (integral faces only at every 2nd index)
+            c = rng.choice([F(1, 2), F(1, 2), F(1), F(2), F(3, 2)])
+            if c.denominator == 2:
+                k = 2 * rng.randint(1, 4)
+            l = F(rng.randint(-20, 20))
+            h = l + k * c
+        elif exact:
             c = F(rng.choice([1, 3, 5, 7]), 2 ** rng.randint(0, 4))
             l = F(rng.randint(-256, 256), 8)
             h = l + k * c
@@ -69,11 +107,20 @@ def gen_state(rng, exact, nd=None, nsubs=None, scale=None, nmax=6):
         p2.append(h)
     tf = F(1, 2 ** rng.choice([30, 36, 40])) if exact else DEFAULT_TF
     st = dict(exact=exact, p1=[S(x) for x in p1], p2=[S(x) for x in p2], n=n, tf=S(tf),
-              dims=rng.choice(DIMS)[:nd], units=rng.choice(UNITS)[:nd], subs=[], sub_idx={})
+              dims=rng.choice(DIMS)[:nd], units=rng.choice(UNITS)[:nd], subs=[], sub_idx={},
+              ints=ints, ctype=rng.choice(["list", "list", "array"]))
     k = rng.choice([0, 1, 1, 2, 2, 3]) if nsubs is None else nsubs
     for i in range(k):
-        add_sub(rng, st, f"s{i}")
+        add_sub(rng, st)
     return st
+
+
+def allowed_faces(st, a):
+    """face indices a subregion corner may use (integer-typed stream: integral coordinates only)"""
+    k = st["n"][a]
+    if not st.get("ints"):
+        return list(range(k + 1))
+    return [j for j in range(k + 1) if F(face(st, a, j)).denominator == 1]
 
 
 def bounds(st):
@@ -103,25 +150,30 @@ def cellq(st):
 
 def rand_idx_box(rng, st, touching=None):
     box = []
-    for a, k in enumerate(st["n"]):
-        j1 = rng.randint(0, k - 1)
-        j2 = rng.randint(j1 + 1, k)
+    for a in range(len(st["n"])):
+        al = allowed_faces(st, a)
+        i1 = rng.randint(0, len(al) - 2)
+        i2 = rng.randint(i1 + 1, len(al) - 1)
         if rng.random() < 0.3:
-            j1, j2 = 0, k
-        box.append([j1, j2])
+            i1, i2 = 0, len(al) - 1
+        box.append([al[i1], al[i2]])
     if touching is not None:
         # share a face with the given box on one axis
         a = rng.randrange(len(box))
         j1, j2 = touching[a]
-        k = st["n"][a]
-        if j2 < k:
-            box[a] = [j2, rng.randint(j2 + 1, k)]
-        elif j1 > 0:
-            box[a] = [rng.randint(0, j1 - 1), j1]
+        al = allowed_faces(st, a)
+        above = [j for j in al if j > j2]
+        below = [j for j in al if j < j1]
+        if above:
+            box[a] = [j2, rng.choice(above)]
+        elif below:
+            box[a] = [rng.choice(below), j1]
     return box
 
 
-def add_sub(rng, st, name):
+def add_sub(rng, st, name=None):
+    if name is None:
+        name = rng.choice([x for x in NAMES if x not in st["sub_idx"]])
     prev = list(st["sub_idx"].values())
     box = rand_idx_box(rng, st, touching=rng.choice(prev) if prev and rng.random() < 0.5 else None)
     st["sub_idx"][name] = box
@@ -192,19 +244,20 @@ GOOD = ["aligned", "aligned", "aligned", "whole-region", "shift-below-tol"]
 BAD = ["shift-half", "shift-quarter", "shift-above-tol", "oversized", "fractional", "tiny", "wrong-ndim"]
 
 
-def gen_setter(rng, exact, scale=None):
-    st = gen_state(rng, exact, scale=scale, nsubs=0 if (scale or 0) >= 1e3 else None)
+def gen_setter(rng, exact, scale=None, ints=False):
+    st = gen_state(rng, exact, scale=scale, nsubs=0 if (scale or 0) >= 1e3 else None, ints=ints)
     k = rng.choice([1, 1, 2, 3])
     classes = [rng.choice(GOOD) for _ in range(k)]
     if rng.random() < 0.6:
         classes[rng.randrange(k)] = rng.choice(BAD)
-    cands = [gen_candidate(rng, st, f"c{i}", cls) for i, cls in enumerate(classes)]
+    names = rng.sample(NAMES, k)
+    cands = [gen_candidate(rng, st, names[i], cls) for i, cls in enumerate(classes)]
     via = "ctor" if (not st["subs"] and rng.random() < 0.5) else "setter"
     return dict(kind="setter", st=st, cands=cands, via=via)
 
 
-def gen_aligned(rng, exact, scale=None):
-    st = gen_state(rng, exact, nsubs=0, scale=scale)
+def gen_aligned(rng, exact, scale=None, ints=False):
+    st = gen_state(rng, exact, nsubs=0, scale=scale, ints=ints)
     nd = len(st["n"])
     lo, hi = bounds(st)
     cq = cellq(st)
@@ -247,7 +300,10 @@ def gen_op(rng, st, exact):
     kind = rng.choice(["translate", "translate", "scale", "scale", "rotate", "rotate"])
     if nd == 1 and kind == "rotate" and rng.random() < 0.7:
         kind = "scale"
-    if exact:
+    if st.get("ints") and rng.random() < 0.6:
+        def num():
+            return F(rng.randint(-8, 8))
+    elif exact:
         def num():
             return F(rng.randint(-64, 64), 8)
     else:
@@ -330,7 +386,8 @@ def gen_sel_range(rng, st, exact):
             x2 = face(st, a, i2) + c / 2
     if rng.random() < 0.3:
         x1, x2 = x2, x1
-    return dict(kind="sel-range", st=st, a=a, x1=S(x1), x2=S(x2), i1=i1, i2=i2)
+    return dict(kind="sel-range", st=st, a=a, x1=S(x1), x2=S(x2), i1=i1, i2=i2,
+                xtype=[rng.choice(XTYPES), rng.choice(XTYPES)], seq=rng.choice(["tuple", "list", "array"]))
 
 
 def gen_sel_plane(rng, st, exact):
@@ -341,7 +398,7 @@ def gen_sel_plane(rng, st, exact):
     i = rng.randint(0, k - 1)
     r = rng.random()
     if r < 0.15 and (exact or k % 2 == 1):
-        return dict(kind="sel-plane", st=st, a=a, x=None, i=None)
+        return dict(kind="sel-plane", st=st, a=a, x=None, i=None, xtype="float")
     if exact:
         base = face(st, a, i)
         x = rng.choice([base + cq / 2, base, base + cq / 1024, base + cq - cq / 1024])
@@ -351,16 +408,16 @@ def gen_sel_plane(rng, st, exact):
             x = face(st, a, 0) - cq / 8
     else:
         x = face(st, a, i) + float(cq) * rng.uniform(0.15, 0.85)
-    return dict(kind="sel-plane", st=st, a=a, x=S(x), i=i)
+    return dict(kind="sel-plane", st=st, a=a, x=S(x), i=i, xtype=rng.choice(XTYPES))
 
 
 def generate(rng, tier):
     nm = 24 if tier == "quick" else 240
     cases = []
     for k in range(nm * 5):
-        cases.append(gen_aligned(rng, exact=(k % 2 == 0)))
+        cases.append(gen_aligned(rng, exact=(k % 2 == 0), ints=(k % 6 == 0)))
     for k in range(nm * 6):
-        cases.append(gen_setter(rng, exact=(k % 2 == 0)))
+        cases.append(gen_setter(rng, exact=(k % 2 == 0), ints=(k % 6 == 0)))
     # picometre cells: the absolute tolerance decides
     for k in range(nm):
         cases.append(gen_setter(rng, exact=False, scale=1e-12))
@@ -371,7 +428,7 @@ def generate(rng, tier):
         cases.append(gen_aligned(rng, exact=False, scale=rng.choice([1e3, 1e6])))
     for k in range(nm * 3):
         exact = k % 2 == 0
-        st = gen_state(rng, exact, nsubs=rng.choice([1, 2, 2, 3]))
+        st = gen_state(rng, exact, nsubs=rng.choice([1, 2, 2, 3]), ints=(k % 4 == 0))
         for _ in range(2):
             cases.append(dict(kind="transform", st=st, inplace=rng.random() < 0.4, **gen_op(rng, st, exact)))
         for _ in range(2):
@@ -386,7 +443,7 @@ def generate(rng, tier):
             mode = rng.choice(["same", "same-prev", "shifted-half", "bigger", "other"])
             cases.append(dict(kind="persist-json", st=st, dst=gen_dst(rng, st, mode), mode=mode))
     for k in range(nm):
-        st = gen_state(rng, True, nsubs=rng.choice([0, 1, 2]))
+        st = gen_state(rng, True, nsubs=rng.choice([0, 1, 2]), ints=(k % 3 == 0))
         cases.append(dict(kind="malformed", st=st, what=rng.choice(["list", "int-key", "tuple-value", "none-value",
                                                                     "str-value", "mesh-value", "bad-second"])))
     return cases
@@ -399,7 +456,7 @@ def gen_dst(rng, st, mode):
     if mode == "same":
         return d
     if mode == "same-prev":
-        add_sub(rng, d, "old")
+        add_sub(rng, d)
         return d
     lo, hi = bounds(st)
     cq = cellq(st)
@@ -412,7 +469,8 @@ def gen_dst(rng, st, mode):
             lo, hi = [float(x) for x in lo], [float(x) for x in hi]
         d["p1"] = [S(l + s_) for l, s_ in zip(lo, sh)]
         d["p2"] = [S(h + s_) for h, s_ in zip(hi, sh)]
-        add_sub(rng, d, "old")
+        d["ints"] = bool(d.get("ints")) and all(F(x).denominator == 1 for x in d["p1"] + d["p2"])
+        add_sub(rng, d)
         return d
     if mode == "bigger":
         ex = [rng.randint(0, 2) for _ in range(nd)]
@@ -420,17 +478,18 @@ def gen_dst(rng, st, mode):
             d["p1"] = [S(l - e * c) for l, e, c in zip(lo, ex, cq)]
             d["p2"] = [S(h + e * c) for h, e, c in zip(hi, ex, cq)]
             d["n"] = [k + 2 * e for k, e in zip(st["n"], ex)]
+            d["ints"] = bool(d.get("ints")) and all(F(x).denominator == 1 for x in d["p1"] + d["p2"])
             return d
         return d
-    other = gen_state(rng, exact, nd=nd, nsubs=1)
+    other = gen_state(rng, exact, nd=nd, nsubs=1, ints=st.get("ints", False))
     return other
 
 
 # ------------------------------------------------------------------ implementation
 def build(st, with_subs=True):
-    region = df.Region(p1=fls(st["p1"]), p2=fls(st["p2"]), dims=list(st["dims"]), units=list(st["units"]),
+    region = df.Region(p1=nums(st["p1"], st), p2=nums(st["p2"], st), dims=list(st["dims"]), units=list(st["units"]),
                        tolerance_factor=fl(st["tf"]))
-    subs = {x[0]: df.Region(p1=fls(x[1]), p2=fls(x[2])) for x in st["subs"]} if with_subs else {}
+    subs = {x[0]: df.Region(p1=nums(x[1], st), p2=nums(x[2], st)) for x in st["subs"]} if with_subs else {}
     return df.Mesh(region=region, n=list(st["n"]), subregions=subs)
 
 
@@ -441,6 +500,11 @@ def snap_subs(mesh):
 def snap_mesh(mesh):
     return dict(pmin=js(mesh.region.pmin), pmax=js(mesh.region.pmax), n=[int(x) for x in mesh.n],
                 dims=list(mesh.region.dims), units=list(mesh.region.units), subs=snap_subs(mesh))
+
+
+def name_map(subs):
+    """name -> (pmin, pmax, dims, units) of a snapshot, corners as exact rationals"""
+    return {x[0]: (Fs(x[1]), Fs(x[2]), list(x[3]), list(x[4])) for x in subs}
 
 
 def sub_obs_coq(subs):
@@ -562,7 +626,7 @@ def run_case(c):
 
     if kind == "aligned":
         m1 = build(st, with_subs=False)
-        m2 = df.Mesh(p1=fls(c["q1"]), p2=fls(c["q2"]), n=list(c["n2"]))
+        m2 = df.Mesh(p1=nums(c["q1"], st), p2=nums(c["q2"], st), n=list(c["n2"]))
         tol = F(c["tol"])
         st_, res = attempt(lambda: bool(m1.is_aligned(m2, float(tol)) if tol != ALIGN_TOL else m1.is_aligned(m2)))
         if st_ != "ok":
@@ -599,7 +663,7 @@ def run_case(c):
         mesh = build(st)
         before = snap_subs(mesh)
         what = c["what"]
-        good = df.Region(p1=fls(st["p1"]), p2=fls(st["p2"]))
+        good = df.Region(p1=nums(st["p1"], st), p2=nums(st["p2"], st))
         value = {"list": [good], "int-key": {1: good}, "tuple-value": {"a": tuple(fls(st["p1"]))},
                  "none-value": {"a": None}, "str-value": {"a": "region"}, "mesh-value": {"a": mesh},
                  "bad-second": {"ok": good, "bad": 3.5}}[what]
@@ -607,17 +671,17 @@ def run_case(c):
         after = snap_subs(mesh)
         if st_ == "ok":
             rec["oracle"].append("malformed-subregions-accepted")
-        if st_ != "ok" and after != before:
+        if st_ != "ok" and name_map(after) != name_map(before):
             rec["oracle"].append("rejected-assignment-changed-subregions")
         rec.update(obs=dict(status=st_, subs=after), key=key_of("malformed", what, st_), size=size)
         return rec
 
     if kind == "setter":
         cands = c["cands"]
-        cand_dict = {x[0]: df.Region(p1=fls(x[1]), p2=fls(x[2]), tolerance_factor=fl(x[3])) for x in cands}
+        cand_dict = {x[0]: df.Region(p1=nums(x[1], st), p2=nums(x[2], st), tolerance_factor=fl(x[3])) for x in cands}
         if c["via"] == "ctor":
-            region = df.Region(p1=fls(st["p1"]), p2=fls(st["p2"]), dims=list(st["dims"]), units=list(st["units"]),
-                               tolerance_factor=fl(st["tf"]))
+            region = df.Region(p1=nums(st["p1"], st), p2=nums(st["p2"], st), dims=list(st["dims"]),
+                               units=list(st["units"]), tolerance_factor=fl(st["tf"]))
             st_, mesh = attempt(lambda: df.Mesh(region=region, n=list(st["n"]), subregions=cand_dict))
             before = []
             after = snap_subs(mesh) if st_ == "ok" else []
@@ -637,7 +701,7 @@ def run_case(c):
         acc = st_ == "ok"
         cq = cellq(st)
         rec["tags"] = abs_tol_tags(cq)
-        if not acc and after != before:
+        if not acc and name_map(after) != name_map(before):
             rec["oracle"].append("rejected-assignment-changed-subregions")
         if acc:
             want = [[x[0], js([min(F(a), F(b)) for a, b in zip(x[1], x[2])]),
@@ -645,7 +709,7 @@ def run_case(c):
                     for x in cands]
             got = [[s_[0], [S(F(v)) for v in s_[1]], [S(F(v)) for v in s_[2]], s_[3], s_[4]] for s_ in after]
             want = [[w[0], [S(F(v)) for v in w[1]], [S(F(v)) for v in w[2]], w[3], w[4]] for w in want]
-            if got != want:
+            if {x[0]: x[1:] for x in got} != {x[0]: x[1:] for x in want} or len(got) != len(want):
                 rec["oracle"].append("accepted-subregions-differ-from-candidates")
         if mobs is not None:
             rec["oracle"] += invariant_violations(mobs)
@@ -681,11 +745,11 @@ def run_case(c):
         ex = exact and c["op"] != "rotate"
 
         def call():
-            ref = None if c.get("ref") is None else fls(c["ref"])
+            ref = None if c.get("ref") is None else nums(c["ref"], st)
             if c["op"] == "translate":
-                return mesh.translate(fls(c["v"]), inplace=inplace)
+                return mesh.translate(nums(c["v"], st), inplace=inplace)
             if c["op"] == "scale":
-                f = fls(c["f"])
+                f = nums(c["f"], st)
                 return mesh.scale(f[0] if c["scalar"] else f, reference_point=ref, inplace=inplace)
             names = list(st["dims"]) + ["nope"]
             return mesh.rotate90(names[c["a"]], names[c["b"]], k=c["k"], reference_point=ref, inplace=inplace)
@@ -695,19 +759,23 @@ def run_case(c):
             if inplace and res is not mesh:
                 rec["oracle"].append("inplace-returned-other-object")
             rec["oracle"] += invariant_violations(obs)
-            if [x[0] for x in obs["subs"]] != [x[0] for x in held]:
+            if sorted(x[0] for x in obs["subs"]) != sorted(x[0] for x in held):
                 rec["oracle"].append("subregion-names-changed")
             # independent rational transformation of every box
             want = transform_boxes(st, c, held)
             if want is not None:
                 sc = max([abs(F(v)) for v in obs["pmin"] + obs["pmax"]] + [F(1, 10 ** 300)])
-                for (nm, wmin, wmax), got in zip(want, obs["subs"]):
+                gotd = {x[0]: x for x in obs["subs"]}
+                for nm, wmin, wmax in want:
+                    got = gotd.get(nm)
+                    if got is None:
+                        continue
                     if any(abs(F(a) - b) > sc / 10 ** 9 for a, b in zip(got[1], wmin)) or \
                             any(abs(F(a) - b) > sc / 10 ** 9 for a, b in zip(got[2], wmax)):
                         rec["oracle"].append("subregion-not-transformed-with-mesh")
         else:
             after = snap_subs(mesh)
-            if after != held:
+            if name_map(after) != name_map(held):
                 rec["oracle"].append("failed-transformation-changed-subregions")
             # a valid operation on a valid mesh must go through (in the copying form the transformed
             # subregions are validated again: only claimed where rounding cannot reach the 1e-12 test)
@@ -727,8 +795,10 @@ def run_case(c):
     if kind == "sel-range":
         a = c["a"]
         name = st["dims"][a]
-        x1, x2 = fl(c["x1"]), fl(c["x2"])
-        st_, res = attempt(lambda: mesh.sel(**{name: (x1, x2)}))
+        xt = c.get("xtype", ["float", "float"])
+        x1, x2 = typed(c["x1"], xt[0]), typed(c["x2"], xt[1])
+        rng_ = {"tuple": (x1, x2), "list": [x1, x2], "array": np.array([float(x1), float(x2)])}[c.get("seq", "tuple")]
+        st_, res = attempt(lambda: mesh.sel(**{name: rng_}))
         obs = snap_mesh(res) if st_ == "ok" else None
         # expected by cell indices
         xs = sorted([F(c["x1"]), F(c["x2"])])
@@ -753,7 +823,7 @@ def run_case(c):
                 rec["oracle"] += invariant_violations(obs)
                 sc = max(abs(lo[a]), abs(hi[a]), hi[a] - lo[a])
                 got = {x[0]: x for x in obs["subs"]}
-                if [x[0] for x in obs["subs"]] != [w[0] for w in want]:
+                if sorted(x[0] for x in obs["subs"]) != sorted(w[0] for w in want):
                     rec["oracle"].append("sel-range-subregions")
                 else:
                     for nm, k1, k2 in want:
@@ -785,7 +855,7 @@ def run_case(c):
             st_, res = attempt(lambda: mesh.sel(name))
             xq = (lo[a] + hi[a]) / 2
         else:
-            xf = fl(c["x"])
+            xf = typed(c["x"], c.get("xtype", "float"))
             st_, res = attempt(lambda: mesh.sel(**{name: xf}))
             xq = F(c["x"])
         obs = snap_mesh(res) if st_ == "ok" else None
@@ -797,7 +867,7 @@ def run_case(c):
             if exact or c["i"] is not None:
                 i = min(st["n"][a] - 1, math.floor((xq - lo[a]) / cq[a])) if exact else c["i"]
                 want = [nm for nm, _, _ in held_in if st["sub_idx"][nm][a][0] <= i < st["sub_idx"][nm][a][1]]
-                if [x[0] for x in obs["subs"]] != want:
+                if sorted(x[0] for x in obs["subs"]) != sorted(want):
                     rec["oracle"].append("sel-plane-subregions")
                 else:
                     for x in obs["subs"]:
@@ -859,8 +929,7 @@ def run_case(c):
         if st_ != "ok":
             rec["oracle"].append("hdf5-roundtrip-failed")
         else:
-            if [[x[0], Fs(x[1]), Fs(x[2]), x[3], x[4]] for x in obs["subs"]] != \
-                    [[x[0], Fs(x[1]), Fs(x[2]), x[3], x[4]] for x in held]:
+            if name_map(obs["subs"]) != name_map(held) or len(obs["subs"]) != len(held):
                 rec["oracle"].append("hdf5-subregions-changed")
             rec["oracle"] += invariant_violations(obs)
         rec["tags"] = tags_abs
@@ -884,13 +953,12 @@ def run_case(c):
             st_, _ = attempt(lambda: mesh2.load_subregions(fn))
         after = snap_subs(mesh2)
         acc = st_ == "ok"
-        if not acc and after != before:
+        if not acc and name_map(after) != name_map(before):
             rec["oracle"].append("rejected-assignment-changed-subregions")
         if c["mode"] in ("same", "same-prev"):
             if not acc:
                 rec["oracle"].append("json-reload-rejected")
-            elif [[x[0], Fs(x[1]), Fs(x[2]), x[3], x[4]] for x in after] != \
-                    [[x[0], Fs(x[1]), Fs(x[2]), x[3], x[4]] for x in held]:
+            elif name_map(after) != name_map(held) or len(after) != len(held):
                 rec["oracle"].append("json-subregions-changed")
         rec["oracle"] += invariant_violations(snap_mesh(mesh2))
         rec["tags"] = sorted(set(tags_abs + abs_tol_tags(cellq(dst))))
